@@ -227,10 +227,10 @@ type syncResult struct {
 	srv      *mredis.Server
 }
 
-var syncMetricOnce sync.Once
+// the metric object starts goroutines that never end: create it outside of any bubble
+func init() { metric.AddMetric(7) }
 
 func syncNewDs(cfg syncConfig) *DbSyncer {
-	syncMetricOnce.Do(func() { metric.AddMetric(7) })
 	ds := &DbSyncer{
 		id:                         7,
 		node:                       &slot.SyncNode{Id: 7, Source: syncSource, Target: []string{"target:6379"}, SlotLeftBoundary: -1, SlotRightBoundary: -1},
